@@ -18,6 +18,9 @@ CONSTANTS
   CleanSC = "sf-"
   CountRule = "sound"
   EagerCount = FALSE
+  Holds = FALSE
+  MaxTick = 0
+  TickGuard = "impl"
 CONSTRAINT HighWater
 POSTCONDITION Accepted
 CHECK_DEADLOCK FALSE
